@@ -13,6 +13,7 @@ import (
 	"net/http"
 	"net/http/httptest"
 	"net/url"
+	"os"
 	"sort"
 	"strings"
 	"sync"
@@ -365,6 +366,9 @@ func (e *c07env) exchange(cfg config.Proxy, pc pcfg, routes string, rep *upReply
 			return nil, 0, nil, attempts, err
 		}
 		if resp, err = e.roundTrip(method, raw, keepBody); err != nil {
+			if os.Getenv("C07_DEBUG") != "" {
+				fmt.Fprintf(os.Stderr, "c07: attempt %d: %v\n", attempts, err)
+			}
 			continue
 		}
 		if err = e.quiesce(); err != nil { // the recorder is read when both sides are done with the exchange
@@ -372,6 +376,9 @@ func (e *c07env) exchange(cfg config.Proxy, pc pcfg, routes string, rep *upReply
 		}
 		if hits, up = e.seen(); hits <= 1 {
 			break
+		}
+		if os.Getenv("C07_DEBUG") != "" {
+			fmt.Fprintf(os.Stderr, "c07: attempt %d: upstream counted %d requests\n", attempts, hits)
 		}
 	}
 	if attempts > 3 {
@@ -442,6 +449,9 @@ func (e *c07env) roundTrip(method string, raw []byte, keepBody bool) (*clientRes
 		if resp.StatusCode != 101 {
 			body, err = io.ReadAll(resp.Body)
 			if err != nil {
+				if os.Getenv("C07_DEBUG") != "" {
+					fmt.Fprintf(os.Stderr, "c07: cut reply: status %d read %d bytes, CL %d, TE %v, close %v, hdr %v\n", resp.StatusCode, len(body), resp.ContentLength, resp.TransferEncoding, resp.Close, resp.Header)
+				}
 				return nil, fmt.Errorf("read body: %v", err)
 			}
 		}
